@@ -207,6 +207,26 @@ func ruleD1(c *Ctx) {
 					sorts = append(sorts, in2)
 				}
 			})
+			for _, srt := range sorts {
+				call := srt.(*ssa.Call)
+				if len(call.Call.Args) < 2 {
+					continue
+				}
+				var cmpFn *ssa.Function
+				switch x := call.Call.Args[1].(type) {
+				case *ssa.MakeClosure:
+					cmpFn, _ = x.Fn.(*ssa.Function)
+				case *ssa.Function:
+					cmpFn = x
+				}
+				if cmpFn == nil {
+					continue
+				}
+				if why := notTotalOrder(cmpFn); why != "" {
+					c.viol(key, pos, "the slice filled from a Go map range is sorted with a comparator that "+why+": elements it does not distinguish keep the random order of the map, so the result still varies from run to run")
+					return
+				}
+			}
 			if len(sorts) == 0 {
 				c.viol(key, pos, "elements collected from a Go map range are appended to a slice that is never sorted in this function: callers observe Go's randomised map order (e.g. in attribute listings or 'did you mean' hints)")
 				return
@@ -238,6 +258,84 @@ func ruleD1(c *Ctx) {
 			}
 		})
 	}
+}
+
+// notTotalOrder inspects a less-function used to sort map-derived elements: it must
+// compare the two elements themselves (or fields of them) with < or >, without
+// mapping them through a function first (strings.ToLower(a) < strings.ToLower(b)
+// leaves "Limit" and "limit" in map order).
+func notTotalOrder(fn *ssa.Function) string {
+	why := ""
+	var pure func(v ssa.Value, depth int) bool
+	pure = func(v ssa.Value, depth int) bool {
+		if depth > 8 {
+			return false
+		}
+		switch x := v.(type) {
+		case *ssa.UnOp:
+			return pure(x.X, depth+1)
+		case *ssa.IndexAddr:
+			return pure(x.X, depth+1)
+		case *ssa.Index:
+			return pure(x.X, depth+1)
+		case *ssa.FieldAddr:
+			return pure(x.X, depth+1)
+		case *ssa.Field:
+			return pure(x.X, depth+1)
+		case *ssa.ChangeType:
+			return pure(x.X, depth+1)
+		case *ssa.Convert:
+			return pure(x.X, depth+1)
+		case *ssa.TypeAssert:
+			return pure(x.X, depth+1)
+		case *ssa.Extract:
+			return pure(x.Tuple, depth+1)
+		case *ssa.FreeVar, *ssa.Parameter, *ssa.Alloc, *ssa.Const:
+			return true
+		}
+		return false
+	}
+	eachInstr(fn, func(in ssa.Instruction) {
+		ret, ok := in.(*ssa.Return)
+		if !ok || len(ret.Results) != 1 || in.Parent() != fn {
+			return
+		}
+		var check func(v ssa.Value, depth int)
+		check = func(v ssa.Value, depth int) {
+			if depth > 4 {
+				return
+			}
+			switch x := v.(type) {
+			case *ssa.BinOp:
+				switch x.Op {
+				case token.LSS, token.GTR, token.LEQ, token.GEQ, token.EQL, token.NEQ:
+					if !pure(x.X, 0) || !pure(x.Y, 0) {
+						why = "compares values computed from the elements (through a call or arithmetic) rather than the elements themselves"
+					}
+				}
+			case *ssa.Phi:
+				for _, e := range x.Edges {
+					check(e, depth+1)
+				}
+			case *ssa.Const:
+			case *ssa.Call:
+				if cal := x.Call.StaticCallee(); cal != nil {
+					switch cal.String() {
+					case "strings.Compare", "cmp.Compare", "cmp.Less", "bytes.Compare":
+						for _, a := range x.Call.Args {
+							if !pure(a, 0) {
+								why = "compares values computed from the elements rather than the elements themselves"
+							}
+						}
+						return
+					}
+				}
+				why = "delegates to " + calleeName(x) + ", which is not known to be a total order"
+			}
+		}
+		check(ret.Results[0], 0)
+	})
+	return why
 }
 
 func typeShort(t types.Type) string {
